@@ -24,12 +24,15 @@ pub fn encode_cbor<T>(v: &T) -> (r: Result<Vec<u8>, EncodeError>) { unimplemente
 // sqlx query builder (opaque)
 pub struct QueryAs<O> { pub g: Ghost<Option<O>> }
 #[verifier::external_body]
-pub fn query_as<D, O>(sql: &String) -> (r: QueryAs<O>) { unimplemented!() }
+pub fn query_as<D, O>(sql: &(impl ?Sized)) -> (r: QueryAs<O>) { unimplemented!() }
 impl<O> QueryAs<O> {
     #[verifier::external_body]
     pub fn bind<T>(self, v: T) -> (r: QueryAs<O>) { unimplemented!() }
     #[verifier::external_body]
     pub fn fetch_all(self, pool: &Pool) -> (r: Result<Vec<O>, SqlxError>) { unimplemented!() }
+    // any row (any u32 column values SQLite's SUM/COUNT may produce and sqlx decodes) or none
+    #[verifier::external_body]
+    pub fn fetch_optional(self, pool: &Pool) -> (r: Result<Option<O>, SqlxError>) { unimplemented!() }
 }
 impl vstd::std_specs::convert::FromSpecImpl<SqlxError> for SqliteError {
     open spec fn obeys_from_spec() -> bool { true }
